@@ -275,6 +275,45 @@ pub fn run(ctx: &Ctx) -> i32 {
             conform(ctx, "link-grid", &case, &f, &want);
         });
     }
+    // a tile placed in a map is drawn by its pixels, whatever its id: tilesets whose tile 0 is not blank
+    if ctx.wants_family("tilemap-tile0") {
+        let mut cases: Vec<(usize, u32, u8, u8)> = Vec::new();
+        for fi in 0..3usize {
+            for flags in [2u32, 6, 2 | 8, 6 | 0x10] {
+                for lo in [255u8, 150] {
+                    for mode in [0u8, 1] {
+                        cases.push((fi, flags, lo, mode));
+                    }
+                }
+            }
+        }
+        ctx.family("tilemap-tile0", cases.len() as u64, "a tilemap layer over an image layer, 3 pixel formats; the tileset's tile 0 has pixels of its own and the map (which covers the canvas) places tiles 0, 1, 2 in every arrangement of a 2x2 map; tileset flags {embedded, embedded+empty-tile-is-0, +8, +16} x layer opacity x mode", true);
+        cases.par_iter().for_each(|(fi, flags, lo, mode)| {
+            let fmt = [Fmt::Rgba, Fmt::Gray, Fmt::Indexed(0)][*fi].clone();
+            for arr in 0..81u32 {
+                let case = || format!("fmt{} tileset.flags={:#x} lo={} mode={} map#{}", fi, flags, lo, mode, arr);
+                if !ctx.wants("tilemap-tile0", &case) {
+                    continue;
+                }
+                let mut f = gen::file(4, 4, &fmt, &[10]);
+                if *fi == 2 {
+                    f.frames[0].push(new_palette(0, pal_entries(8, 3)));
+                }
+                let mut ts = tileset(1, 3, 2, 2, tile_pixels_full(&fmt, 3, 2, 2, 5, (1, 7)), "ts");
+                ts.flags = *flags;
+                f.frames[0].push(Body::Tileset(ts));
+                f.frames[0].push(Body::Layer(Layer::image("below")));
+                let mut l = Layer::tilemap("m", 1);
+                l.opacity = *lo;
+                l.blend = *mode as u16;
+                f.frames[0].push(Body::Layer(l));
+                f.frames[0].push(raw_cel(0, 0, 0, 255, 4, 4, pixels(&fmt, 4, 4, 2, (1, 7))));
+                let tiles: Vec<u32> = (0..4).map(|k| arr / 3u32.pow(k) % 3).collect();
+                f.frames[0].push(tm_cel(1, 0, 0, 255, 2, 2, tiles));
+                conform(ctx, "tilemap-tile0", &case, &f, &want);
+            }
+        });
+    }
     nested(ctx, thorough);
     offsets(ctx, thorough);
     opacities(ctx);
